@@ -221,7 +221,7 @@ fn expected_outcome(w: &WorldB, ex: usize) -> Outcome3 {
 }
 
 /// Documented estimate: signed price move on the open quantity minus pro-rata estimated exit fees.
-fn pnl_estimate(
+pub fn pnl_estimate(
     side: Side,
     entry: Decimal,
     qty: Decimal,
@@ -237,7 +237,7 @@ fn pnl_estimate(
     moved - exit_fees
 }
 
-fn close_enough(a: Decimal, b: Decimal) -> bool {
+pub fn close_enough(a: Decimal, b: Decimal) -> bool {
     (a - b).abs() <= Decimal::new(1, 9)
 }
 
